@@ -602,7 +602,131 @@ def gen_c18(rng, mode):
     return g.finish()
 
 
+def gen_lpm_shared(rng, mode):
+    """k = 2..8 objects under ONE prefix of the non-unique LPM index (they share one trie entry and its
+    backing array), inserted in arbitrary order one transaction at a time, then updated / inserted in the
+    middle / deleted at every position, in committed, aborted and still-pending transactions; every snapshot
+    taken on the way is re-queried through that index after every later step."""
+    g = DBGen(rng, mode)
+    g.add(op="config", nilempty=False)
+    t = g.newtable()
+    P = rng.choice([[1, 0], [1, 0, 1, 1, 0, 0, 1, 0], [], [0, 1, 1]])
+    P2 = [1, 1]
+    full = P + [0] * (W - len(P))
+    pks = [[b] for b in rng.sample(range(10, 200), rng.randint(4, 9))]
+
+    def obj(pk, two=False):
+        return dict(pk=pk, val=rng.randint(1, 9), hasU=False, u=[], tags=[], pfx=[P, P2] if two else [P],
+                    hasUp=False, upfx=[])
+
+    snaps = []
+
+    def observe(src, ctx=""):
+        g.q(src, t, "pfx", "list", full, ctx=ctx)
+        g.q(src, t, "pfx", "get", full, ctx=ctx)
+        g.q(src, t, "pfx", "prefix", [], ctx=ctx)
+        g.q(src, t, "pfx", "lowerbound", [], ctx=ctx)
+        g.q(src, t, "pfx", "list", P, ctx=ctx)
+        g.q(src, t, "id", "all", [], ctx=ctx)
+
+    def requery():
+        for s in snaps:
+            observe(g.snap_src(s))
+
+    live = []
+    for step in range(rng.randint(6, 16)):
+        tx = g.begin([t])
+        r = rng.random()
+        nops = 1 if rng.random() < 0.7 else 2
+        for _ in range(nops):
+            if r < 0.55 or len(live) < 2:
+                cand = [p for p in pks if p not in live] or pks
+                pk = rng.choice(cand)
+                g.add(op="insert", tx=tx, t=t, obj=obj(pk, two=rng.random() < 0.2), guard=0, gsym="", w=0)
+                if pk not in live:
+                    live.append(pk)
+            elif r < 0.8:
+                pk = rng.choice(live)
+                g.add(op=rng.choice(["insert", "modify"]), tx=tx, t=t, obj=obj(pk), guard=0, gsym="", w=0)
+            else:
+                pk = rng.choice(live)
+                g.add(op="delete", tx=tx, t=t, obj=obj(pk), guard=0, gsym="", w=0)
+                live.remove(pk)
+            r = rng.random()
+        if rng.random() < 0.3:
+            observe(g.wtx_src(tx))
+            requery()          # while the transaction is pending
+        if rng.random() < (0.5 if mode == "c02" else 0.2):
+            g.abort(tx)
+            g.chans(ctx="postabort")
+            s2 = g.snap()
+            observe(g.snap_src(s2), ctx="postabort")
+            live = None        # unknown after an abort: rebuilt below
+        else:
+            s2 = g.commit(tx)
+            observe(g.snap_src(s2))
+        snaps.append(s2)
+        if live is None:
+            live = []          # shaping only: keep inserting
+        requery()
+    return g.finish()
+
+
+def gen_c06_inner(rng, mode):
+    """Watches on primary/unique-index keys that sit on inner radix nodes which lost their children: insert a
+    chain of keys that are prefixes of one another, delete the deepest, take Get/Prefix/List watches on the
+    remaining keys, their prefixes and absent extensions from a fresh snapshot, then delete or re-extend them."""
+    g = DBGen(rng, mode)
+    g.add(op="config", nilempty=False)
+    t = g.newtable()
+    b = rng.choice([97, 5, 0, 255])
+    chain = [[b] * n for n in range(1, rng.randint(3, 5))]
+    side = [[(b + 1) % 256], [b, (b + 1) % 256]]
+    allk = chain + side + [[]]
+
+    def obj(pk):
+        return dict(pk=pk, val=rng.randint(1, 9), hasU=rng.random() < 0.5, u=pk + [1], tags=[], pfx=[], hasUp=False, upfx=[])
+
+    def txn(writes):
+        tx = g.begin([t])
+        for kind, pk in writes:
+            g.add(op="insert" if kind == "i" else "delete", tx=tx, t=t, obj=obj(pk), guard=0, gsym="", w=0)
+        g.commit(tx)
+        g.chans()
+
+    def watches():
+        s = g.snap()
+        src = g.snap_src(s)
+        for pk in rng.sample(allk, rng.randint(2, len(allk))):
+            g.q(src, t, "id", "get", pk, watch=True)
+            g.q(src, t, "id", "prefix", pk, watch=True)
+            g.q(src, t, "u", "prefix", pk, watch=True)
+            g.q(src, t, "id", "list", pk, watch=True)
+        for pk in chain[-2:]:
+            g.q(src, t, "id", "get", pk + [rng.choice([1, 122])], watch=True)
+            g.q(src, t, "u", "get", pk + [rng.choice([1, 122])], watch=True)
+
+    g.watch_budget = 400
+    ins = [("i", k) for k in chain] + [("i", k) for k in side if rng.random() < 0.7]
+    rng.shuffle(ins)
+    for i in range(0, len(ins), 2):
+        txn(ins[i:i + 2])
+    for k in reversed(chain[-rng.randint(1, 2):]):
+        watches()
+        txn([("d", k)])
+    rest = list(chain)
+    rng.shuffle(rest)
+    for k in rest[:rng.randint(1, len(rest))]:
+        watches()
+        txn([(rng.choice(["d", "d", "i"]), k)])
+    watches()
+    txn([("i", chain[-1] + [7])])
+    return g.finish()
+
+
 MODES = {
+    "c06inner": gen_c06_inner,
+    "lpmshared": gen_lpm_shared,
     "c18": gen_c18,
     "kf_l": gen_kf_rejected_only, "kf_n": gen_kf_zero_guard,
     "c01": gen_general, "c02": gen_general, "c03": gen_general, "c04": gen_general, "c06": gen_general,
